@@ -106,6 +106,10 @@ func cmdExec(args []string) {
 		"assert_ids": e.Stats.AssertIDs, "solver": e.S.Stats, "nfuncs": len(e.Stats.Funcs), "rewrite_checks": e.Stats.RewriteChecks,
 	}
 	out["fork_sites"] = e.Stats.ForkSites
+	if e.S2 != nil {
+		out["solver2"] = e.S2.Stats
+	}
+	out["routed"] = e.Stats.SolverRouted
 	var vs []*interp.Violation
 	for _, k := range e.VOrder {
 		vs = append(vs, e.Viol[k])
